@@ -320,11 +320,8 @@ func c15Gen() *rapid.Generator[c15Case] {
 		if !strings.HasPrefix(op, "massive") && len(f) >= 2 {
 			// the mixed notation: the first roots as list items, the later ones as headings (in massive mode such documents are
 			// the known finding C10/massive-mixed-roots)
-			for _, sp := range []*model.Spelling{&c.Sp1, &c.Sp2} {
-				if sp.Heading && rapid.IntRange(0, 2).Draw(t, "mixed") == 0 {
-					sp.HeadingFrom = rapid.IntRange(1, len(f)-1).Draw(t, "headingFrom")
-				}
-			}
+			maybeMixed(t, &c.Sp1, len(f))
+			maybeMixed(t, &c.Sp2, len(f))
 		}
 		switch op {
 		case "text", "noiter", "walk":
